@@ -24,6 +24,7 @@ type ReaderPlan struct {
 	Endless   string `json:"endless"`    // after the document, this line is delivered again and again: the input never ends
 	Once      bool   `json:"once"`       // the reader reports its error once; asked again it reports io.EOF
 	WithLen   bool   `json:"with_len"`   // the reader also has Len() and Size(), as strings.Reader and bytes.Buffer have
+	Seekable  bool   `json:"seekable"`   // the reader also has Seek, and the caller has already consumed a part of it: the document starts at the current offset (fault-free plans only)
 	Stall     bool   `json:"stall"`      // after StallAt bytes Read never returns (a pipe whose writer went silent)
 	StallAt   int    `json:"stall_at"`
 }
@@ -52,8 +53,13 @@ func (r lenReader) Size() int64 { return int64(len(r.data)) }
 
 // asGiven returns the reader the way the plan says the caller hands it over.
 func asGiven(r io.Reader) io.Reader {
-	if sr, ok := r.(*simReader); ok && sr != nil && sr.plan.WithLen {
-		return lenReader{sr}
+	if sr, ok := r.(*simReader); ok && sr != nil {
+		if sr.plan.Seekable {
+			return seekReader{lenReader{sr}}
+		}
+		if sr.plan.WithLen {
+			return lenReader{sr}
+		}
 	}
 	return r
 }
@@ -104,8 +110,46 @@ type stubErr struct{ what string }
 
 func (e *stubErr) Error() string { return e.what + ": injected failure (custom type)" }
 
+// consumedPrefix is what the caller of a seekable reader has read before it hands the
+// reader over: a library that rewinds the reader sees it again.
+const consumedPrefix = "- consumed-by-the-caller-before-the-call\n  - not-part-of-the-document\n"
+
 func newSimReader(data []byte, plan ReaderPlan, yield bool) *simReader {
-	return &simReader{plan: plan, data: data, yield: yield, Err: stubError("reader stub", plan.FailAt+int(plan.ChunkSeed))}
+	r := &simReader{plan: plan, data: data, yield: yield, Err: stubError("reader stub", plan.FailAt+int(plan.ChunkSeed))}
+	if plan.Seekable && (plan.FailAt >= 0 || plan.Stall || plan.Endless != "") {
+		r.plan.Seekable = false
+	}
+	if r.plan.Seekable {
+		r.data = append([]byte(consumedPrefix), data...)
+		r.pos = len(consumedPrefix)
+	}
+	return r
+}
+
+// seekReader is the caller's reader with Seek (and Len/Size), as an *os.File or a
+// strings.Reader has.
+type seekReader struct{ lenReader }
+
+func (r seekReader) Seek(offset int64, whence int) (int64, error) {
+	var abs int64
+	switch whence {
+	case io.SeekStart:
+		abs = offset
+	case io.SeekCurrent:
+		abs = int64(r.pos) + offset
+	case io.SeekEnd:
+		abs = int64(len(r.data)) + offset
+	default:
+		return 0, errors.New("seek: invalid whence")
+	}
+	if abs < 0 {
+		return 0, errors.New("seek: negative position")
+	}
+	if abs > int64(len(r.data)) {
+		abs = int64(len(r.data))
+	}
+	r.simReader.pos = int(abs)
+	return abs, nil
 }
 
 func (r *simReader) Read(p []byte) (int, error) {
